@@ -376,6 +376,85 @@ fn subsets(n: usize) -> Vec<Vec<bool>> {
     (0..(1u32 << n)).map(|m| (0..n).map(|i| m & (1 << i) != 0).collect()).collect()
 }
 
+/// Equal weight: a one-block segment A against a two-block candidate B whose burn fees add up to
+/// exactly A's (found by scanning A's timestamp, the burn fee being a step function of the elapsed
+/// time). The candidate is strictly longer and not lighter, so it is adopted.
+fn equal_weight(rep: &mut Report) {
+    use saito_core::core::consensus::burnfee::BurnFee;
+    let mut found = 0;
+    for kb in [3u64, 4, 5, 8, 12] {
+        let built = (|| -> Result<Option<(World, usize, usize, usize, usize)>, String> {
+            let mut w = World::standard(12);
+            // a stem of slow blocks brings the burn fee down to where it moves by less than one
+            // nolan per millisecond, so that exact ties exist
+            let mut s = 0usize;
+            for i in 0..7u64 {
+                s = child(&mut w, s, i % 2 == 0, 50, i, &format!("S{}", i + 2))?;
+            }
+            let b1 = child(&mut w, s, false, kb, 21, "B1")?;
+            let b2 = child(&mut w, b1, true, kb, 22, "B2")?;
+            let sum = w.blocks[b1].burnfee as u128 + w.blocks[b2].burnfee as u128;
+            let (pbf, pts) = (w.blocks[s].burnfee, w.blocks[s].ts);
+            let mut hit = None;
+            for e in (2 * HEARTBEAT)..(200 * HEARTBEAT) {
+                let bf = BurnFee::calculate_burnfee_for_block(pbf, pts + e, pts, HEARTBEAT);
+                if bf as u128 == sum {
+                    hit = Some(e);
+                    break;
+                }
+                if (bf as u128) < sum {
+                    break;
+                }
+            }
+            let Some(e) = hit else { return Ok(None) };
+            let ts = pts + e;
+            let mut txs = vec![];
+            if let Some(t) = w.payment(s, &key(1), &key(2).public, 1010, 0, ts) {
+                txs.push(t);
+            }
+            let a = w.build(s, ts, None, txs, "A1")?;
+            if w.blocks[a].burnfee as u128 != sum {
+                return Ok(None);
+            }
+            Ok(Some((w, s, a, b1, b2)))
+        })();
+        match built {
+            Ok(Some((w, s, a, b1, b2))) => {
+                found += 1;
+                for order in [vec![a, b1, b2], vec![b1, a, b2]] {
+                    rep.evaluations += 1;
+                    let mut cfg = w.cfg.clone();
+                    cfg.blockchain.initial_loading_completed = true;
+                    let mut n = LedgerNode::new(key(9), cfg);
+                    let mut ok = true;
+                    for i in w.path(s) {
+                        ok &= matches!(n.add_block_bytes(&w.blocks[i].bytes), Outcome::Done(AddRes::AddedLongest));
+                    }
+                    for &i in order.iter() {
+                        rep.transitions += 1;
+                        ok &= n.add_block_bytes(&w.blocks[i].bytes).is_done();
+                    }
+                    let ctx = json!({"equal_weight": true, "candidate_spacing_hb": kb, "segment_burnfee": w.blocks[a].burnfee, "candidate_burnfees": [w.blocks[b1].burnfee, w.blocks[b2].burnfee], "order": order.iter().map(|&i| w.blocks[i].label.clone()).collect::<Vec<_>>()});
+                    if !ok {
+                        rep.machinery(format!("equal weight: deliveries failed {}", ctx));
+                        continue;
+                    }
+                    if n.tip().1 != w.blocks[b2].hash {
+                        rep.violate("M3/eligible-chain-not-adopted/equal-weight", format!("a strictly longer candidate of exactly the segment's weight is not the tip: {}", ctx), ctx.clone());
+                    } else {
+                        rep.outcome("M3-obligation:equal-weight-adopted");
+                    }
+                }
+            }
+            Ok(None) => rep.outcome("equal-weight:no-exact-tie-at-this-spacing"),
+            Err(e) => rep.machinery(format!("equal weight world: {}", e)),
+        }
+    }
+    if found == 0 {
+        rep.machinery("equal weight: no exact tie found at any spacing".into());
+    }
+}
+
 /// A node that joined mid-chain while loading: it holds only the upper part of branch A (its first
 /// block is A2, the fork point and A1 are unknown to it) and is then offered the whole branch B,
 /// which forks below everything it holds and is not longer than A. Nothing may move.
@@ -610,6 +689,7 @@ pub fn main(tier: Tier, replay: Option<String>) -> i32 {
         all.extend(s);
     }
     joined_mid_chain(&mut rep);
+    equal_weight(&mut rep);
     rep.states = all.len() as u64;
     rep.distinct = all.iter().map(|h| hex::encode(&h[0..8])).collect();
     rep.required_outcomes = vec!["joined-mid-chain:isolated-branch-of-no-greater-height-ignored".into(), "tip-moved:reorg".into(), "M3-obligation".into(), "longer-but-lighter-offered".into(), "longer-but-sparse-offered".into(), "orphan-delivered".into()];
